@@ -23,6 +23,15 @@ pub struct Entry {
     pub spec_len: Option<fn(&[u8]) -> Option<usize>>,
     /// `Default::default()` of the type, as a fallback seed
     pub default_json: Option<fn() -> Value>,
+    /// read stand-alone bytes as this type (None: needs arguments)
+    pub from_bytes: Option<fn(&[u8]) -> Option<Value>>,
+}
+
+fn bytes_to<T: for<'a> FontRead<'a> + Serialize>(b: &[u8]) -> Option<Value> {
+    match guard(|| T::read(FontData::new(b))) {
+        Ok(Ok(t)) => serde_json::to_value(&t).ok(),
+        _ => None,
+    }
 }
 
 fn default_of<T: Default + Serialize>() -> Value {
@@ -52,6 +61,7 @@ macro_rules! plain {
             variant: None,
             spec_len: None,
             default_json: Some(default_of::<wt::$m::$t>),
+            from_bytes: Some(bytes_to::<wt::$m::$t>),
         });
     )*};
 }
@@ -67,6 +77,7 @@ macro_rules! top {
             variant: None,
             spec_len: None,
             default_json: Some(default_of::<wt::$m::$t>),
+            from_bytes: Some(bytes_to::<wt::$m::$t>),
         });
     )*};
 }
@@ -200,6 +211,7 @@ pub fn registry() -> Vec<Entry> {
         variant: None,
         spec_len: None,
         default_json: None,
+        from_bytes: None,
     });
     v.push(Entry {
         name: "ift::GlyphData",
@@ -210,6 +222,7 @@ pub fn registry() -> Vec<Entry> {
         variant: None,
         spec_len: None,
         default_json: None,
+        from_bytes: None,
     });
     // ---- tables whose reader needs arguments: derived from the written value
     v.push(Entry {
@@ -227,6 +240,7 @@ pub fn registry() -> Vec<Entry> {
         variant: None,
         spec_len: None,
         default_json: None,
+        from_bytes: None,
     });
     v.push(Entry {
         name: "Vmtx",
@@ -243,6 +257,7 @@ pub fn registry() -> Vec<Entry> {
         variant: None,
         spec_len: None,
         default_json: None,
+        from_bytes: None,
     });
     v.push(Entry {
         name: "Sbix",
@@ -263,6 +278,7 @@ pub fn registry() -> Vec<Entry> {
         variant: None,
         spec_len: None,
         default_json: None,
+        from_bytes: None,
     });
     v.push(Entry {
         name: "Strike",
@@ -278,6 +294,7 @@ pub fn registry() -> Vec<Entry> {
         variant: None,
         spec_len: None,
         default_json: None,
+        from_bytes: None,
     });
 
     for e in v.iter_mut() {
